@@ -245,6 +245,7 @@ class RefGateway:
             self.route(exp, (node, 255, 3, 0, 6, "M" if self.metric else "I"))
         elif sub == 14:
             exp.callbacks = UNSPEC
+            exp.cb_fields = fields
             if self.ge20:
                 self.route(exp, (255, 255, 3, 0, 20, ""))
         elif sub == 21 and self.ge20:
@@ -331,6 +332,7 @@ class RefGateway:
             self.presreq(exp, node)
             return
         exp.callbacks = UNSPEC
+        exp.cb_fields = fields  # whether it fires is not prescribed; if it does, it carries the inbound message
         n = self.nodes[node]
         if sub == 0:
             words = hex_to_words(payload, 5)
